@@ -4,12 +4,25 @@
 //! Oracle: end-state invariant monitor over the OS model (derived from the output stream only)
 //! plus kanata's own idle predicates, after a drain bounded by a generous multiple of every
 //! number written in the configuration.
+//!
+//! Workload: (1) hand-shaped stress configurations that reach the capacities named in the
+//! property; (2) the family "several waiting actions started by ONE key press"
+//! (`c01_multiwait.rs`): one key carries two to four tap-holds with different timeouts through
+//! `switch` fallthrough cases (alone, next to a tap-hold / lazy tap-dance / `chord` in a `multi`,
+//! mixed with immediate actions) or a `defchordsv2` chord's tap-hold fires while a home-row
+//! tap-hold is pending, and the key's release is swept over every offset around each individual
+//! timeout, alone and in the company of other keys; the monitor records from the layout's
+//! waiting slots that several actions of one key were pending at once and that the key went up
+//! between their decisions; (3) the whole non-latching grammar at random.
 
 use crate::core::rng::Rng;
 use crate::core::sim::{osc, render_hist, Ev, OutKind, Sim};
 use crate::core::{CaseOut, Check, Ctx};
 use crate::gen::{self, hist, GenCfg, Profile, K};
 use serde_json::{json, Value};
+
+#[path = "c01_multiwait.rs"]
+mod multiwait;
 
 pub struct C01Check;
 pub static C01: C01Check = C01Check;
@@ -167,6 +180,73 @@ fn stress_config(rng: &mut Rng, fam: u64) -> GenCfg {
 
 const N_STRESS: u64 = 60;
 
+/// What was seen of the waiting slots (primary `waiting` + `extra_waiting`) during one history.
+#[derive(Default)]
+struct WaitObs {
+    prev_count: usize,
+    /// per coordinate: most waiting actions pending at once since the key's last press
+    coord_max: std::collections::BTreeMap<(u8, u16), usize>,
+    /// two or more waiting actions of ONE coordinate pending at once
+    multi_one_coord: bool,
+    /// a waiting action at a coordinate that is no physical key (a chords-v2 chord's tap-hold) in an extra slot
+    virtual_extra: bool,
+    /// a key went up while some of the waiting actions its press started were decided and others not
+    release_between_decisions: bool,
+    /// a release arrived while the primary slot was free and an extra slot was occupied
+    release_extra_only: bool,
+}
+
+impl WaitObs {
+    /// call after every event / tick; `released` = the key whose release was just applied
+    fn observe(&mut self, sim: &Sim, phys: &[u16], ev: Option<&Ev>) {
+        let l = sim.k.layout.b();
+        let wc = l.extra_waiting.len() + l.waiting.is_some() as usize;
+        if let Some(Ev::P(k)) = ev {
+            self.coord_max.remove(&(0, *k));
+        }
+        let released = match ev {
+            Some(Ev::R(k)) => Some(*k),
+            _ => None,
+        };
+        if wc == self.prev_count && released.is_none() {
+            return;
+        }
+        self.prev_count = wc;
+        if l.extra_waiting.is_empty() && !(released.is_some() && wc > 0 && !self.coord_max.is_empty()) {
+            return;
+        }
+        let (p, ex) = multiwait::waiting_coords(&format!("{:?}", l.waiting), &format!("{:?}", l.extra_waiting));
+        let mut cnt: std::collections::BTreeMap<(u8, u16), usize> = Default::default();
+        for c in p.iter().chain(ex.iter()) {
+            *cnt.entry(*c).or_default() += 1;
+        }
+        for (c, n) in &cnt {
+            let m = self.coord_max.entry(*c).or_default();
+            *m = (*m).max(*n);
+            if *n >= 2 {
+                self.multi_one_coord = true;
+            }
+        }
+        if ex.iter().any(|c| c.0 != 0 || !phys.contains(&c.1)) {
+            self.virtual_extra = true;
+        }
+        if let Some(k) = released {
+            let own = cnt.get(&(0, k)).copied().unwrap_or(0);
+            if own >= 1 && self.coord_max.get(&(0, k)).copied().unwrap_or(0) > own {
+                self.release_between_decisions = true;
+            }
+            if p.is_none() && !ex.is_empty() {
+                self.release_extra_only = true;
+            }
+        }
+    }
+}
+
+/// number of configurations of the family "several waiting actions started by one key press"
+fn n_multiwait(ctx: &Ctx) -> u64 {
+    ctx.tier.sel(240, 1200)
+}
+
 fn make_case(ctx: &Ctx, idx: u64) -> Case {
     let mut rng = Rng::for_case(ctx.seed, "C01", "case", idx);
     if idx < N_STRESS {
@@ -198,6 +278,10 @@ fn make_case(ctx: &Ctx, idx: u64) -> Case {
         hists.push(("burst".to_string(), hist::burst(&mut rng, &keys, 2)));
         hists.push(("random".to_string(), hist::consistent(&mut rng, &keys, 120, &[0, 0, 1, 2, 10, 40], true)));
         return Case { g, hists, overflow_ok: true };
+    }
+    if idx < N_STRESS + n_multiwait(ctx) {
+        let c = multiwait::make(&mut rng, idx - N_STRESS, ctx.tier.sel(false, true));
+        return Case { g: c.g, hists: c.hists, overflow_ok: true };
     }
     let mut p = profile(&mut rng);
     // a quarter of the random configurations use the "plain" grammar (no action that goes through
@@ -630,7 +714,7 @@ impl Check for C01Check {
         "C01"
     }
     fn n_cases(&self, ctx: &Ctx) -> u64 {
-        N_STRESS + ctx.tier.sel(15_000, 250_000)
+        N_STRESS + n_multiwait(ctx) + ctx.tier.sel(15_000, 250_000)
     }
     fn describe(&self, ctx: &Ctx, idx: u64) -> Value {
         let c = make_case(ctx, idx);
@@ -643,6 +727,8 @@ impl Check for C01Check {
             eprintln!("config:\n{}", c.g.text);
         }
         let bound = drain_bound(&c.g);
+        let phys: Vec<u16> = c.g.keys.iter().map(|k| osc(k)).collect();
+        let is_mw = c.g.kinds_used.contains("family:multiwait");
         let mut accepted = false;
         for (hname, h) in c.hists.iter() {
             let mut sim = match Sim::new(&c.g.text) {
@@ -663,6 +749,7 @@ impl Check for C01Check {
             let mut max_wait = 0usize;
             let mut max_oneshot = 0usize;
             let mut max_macros = 0usize;
+            let mut wobs = WaitObs::default();
             // the history as executed (with the pauses inserted by the throttle below)
             let mut executed: Vec<Ev> = Vec::with_capacity(h.len() + 8);
             for e in h {
@@ -690,9 +777,13 @@ impl Check for C01Check {
                             max_wait = max_wait.max(l.extra_waiting.len() + l.waiting.is_some() as usize);
                             max_states = max_states.max(l.states.len());
                             max_oneshot = max_oneshot.max(l.oneshot.keys.len());
+                            wobs.observe(&sim, &phys, None);
                         }
                     }
-                    other => sim.apply(other),
+                    other => {
+                        sim.apply(other);
+                        wobs.observe(&sim, &phys, Some(other));
+                    }
                 }
                 let l = sim.k.layout.b();
                 max_q = max_q.max(l.queue.len());
@@ -716,6 +807,7 @@ impl Check for C01Check {
                     max_states = max_states.max(l.states.len());
                     max_oneshot = max_oneshot.max(l.oneshot.keys.len());
                 }
+                wobs.observe(&sim, &phys, None);
                 if sim.trace.len() > n_before {
                     quiet = 0;
                     last_output_tick = sim.now;
@@ -730,6 +822,24 @@ impl Check for C01Check {
             out.inc("histories");
             if hname.starts_with("evict") {
                 out.inc("hist_evict");
+            }
+            if is_mw {
+                out.inc("hist_multiwait");
+                if hname == "mw-solo" {
+                    out.inc("hist_multiwait_solo_sweep");
+                }
+            }
+            if wobs.multi_one_coord {
+                out.inc("hist_several_waiting_one_key");
+            }
+            if is_mw && wobs.virtual_extra {
+                out.inc("hist_chordv2_taphold_extra_slot");
+            }
+            if wobs.release_between_decisions {
+                out.inc("hist_release_between_decisions");
+            }
+            if wobs.release_extra_only {
+                out.inc("hist_release_primary_free_extra_pending");
             }
             out.count("events", h.len() as u64);
             out.max("queue", max_q as u64);
@@ -818,16 +928,23 @@ impl Check for C01Check {
         out
     }
     fn rule(&self) -> String {
-        "case = one configuration (60 hand-shaped stress configurations reaching >64 states, >8 tap-holds, >16 one-shots, >4 macros, chords-v2 bursts; then the whole non-latching action grammar at random) x 3 (quick) / 6 (thorough) physically consistent histories (random gaps around every configured number, zero-gap bursts that overflow the 32-slot queue - for the plain grammar and for every second configuration of the full grammar -, OS repeats) + for those configurations 2 (quick) / 4 (thorough) eviction histories: one key pressed and processed by 1-10 ticks, then its release and >= 32 further events with no tick in between, so that the release is the event the full queue evicts or the one that evicts. After the history the loop's control flow is emulated (blocking predicate consulted every iteration) until kanata may block, the OS model is all-up and nothing was emitted for 50 ticks, bounded by 4 x (sum of all numbers in the config) + 40 x (rapid-event-delay+2) + 2000 ticks; then up to 3000 more ticks must be silent and idle. Non-trivial = history ran on an accepted config and settled; distinct = (action kinds used, history family, capacity classes reached).".into()
+        "case = one configuration (60 hand-shaped stress configurations reaching >64 states, >8 tap-holds, >16 one-shots, >4 macros, chords-v2 bursts; then 240 (quick) / 1200 (thorough) configurations of the family 'several waiting actions started by one key press' - six shapes: switch with 2-4 fallthrough tap-hold cases of different timeouts in random order and random tap-hold variants, the same next to a tap-hold / a lazy tap-dance / a defchords chord in a multi, mixed with immediate key / layer / mouse cases, and a defchordsv2 chord whose action is a tap-hold next to a home-row tap-hold key with concurrent-tap-hold yes - each with a systematic sweep: for every offset x in {0..3} + {t-2..t+4, t+6 for every timeout t of the key} + the points between two timeouts + past the last one, one history 'key down, x ticks, key up' and one (thorough: two) where other keys - plain, layer, tap-hold, chord participants - are pressed and released at random times around it, plus 4 (8) double presses; then the whole non-latching action grammar at random) x 3 (quick) / 6 (thorough) physically consistent histories (random gaps around every configured number, zero-gap bursts that overflow the 32-slot queue - for the plain grammar and for every second configuration of the full grammar -, OS repeats) + for those configurations 2 (quick) / 4 (thorough) eviction histories: one key pressed and processed by 1-10 ticks, then its release and >= 32 further events with no tick in between, so that the release is the event the full queue evicts or the one that evicts. After the history the loop's control flow is emulated (blocking predicate consulted every iteration) until kanata may block, the OS model is all-up and nothing was emitted for 50 ticks, bounded by 4 x (sum of all numbers in the config) + 40 x (rapid-event-delay+2) + 2000 ticks; then up to 3000 more ticks must be silent and idle. Non-trivial = history ran on an accepted config and settled; distinct = (action kinds used, history family, capacity classes reached).".into()
     }
     fn assumptions(&self) -> Vec<String> {
         vec![
             "latching constructs are excluded by construction: on-press/on-release press-vkey or toggle-vkey without a matching release, on-idle press".into(),
             "cmd, clipboard, live-reload actions and delays > 2 ms are not generated".into(),
             "'bounded time' is the stated logical bound, a generous multiple of every configured number".into(),
+            "multi-wait family: only the end state is judged (everything released, idle, silent), not which of tap / hold each of the concurrent tap-holds should have chosen; the counters hist_several_waiting_one_key / hist_release_between_decisions / hist_release_primary_free_extra_pending / hist_chordv2_taphold_extra_slot are read from the Debug rendering of the layout's waiting slots (their fields are private)".into(),
+            "a held layer that is never released is not an output and is only noticed here if it leaves a key, button, scroll or non-idle state behind".into(),
         ]
     }
     fn floors(&self, _ctx: &Ctx) -> Vec<(&'static str, u64)> {
-        vec![("histories", 3000), ("hist_queue_full", 20), ("hist_states_full", 3), ("hist_waiting_over_8", 3), ("hist_oneshot_full", 3), ("hist_macros_full", 3), ("hist_evict", 10_000)]
+        vec![("histories", 3000), ("hist_queue_full", 20), ("hist_states_full", 3), ("hist_waiting_over_8", 3), ("hist_oneshot_full", 3), ("hist_macros_full", 3), ("hist_evict", 10_000),
+            // family "several waiting actions started by one key press": it ran, several waiting
+            // actions of one key were really pending at once, the key really went up between two of
+            // their decisions, a release really arrived while only an extra slot was occupied, and
+            // a chords-v2 chord's tap-hold really sat in an extra slot
+            ("hist_multiwait", 8000), ("hist_multiwait_solo_sweep", 3000), ("hist_several_waiting_one_key", 6000), ("hist_release_between_decisions", 3000), ("hist_release_primary_free_extra_pending", 2000), ("hist_chordv2_taphold_extra_slot", 150)]
     }
 }
